@@ -613,6 +613,57 @@ def check_scalar(case):
     return {'nt': True, 'cls': ['scalar:' + kind, 'scalar-op:' + op, 'scalar-side:' + case['side'], 'scalar-operand:' + case['operand']]}
 
 
+# ---------------------------------------------------------------------------------------------
+# operands labelled by the same instants held in unlike datetime units (IndexDate against an index of second resolution)
+
+@st.composite
+def unit_cases(draw):
+    op = draw(st.sampled_from(['add', 'sub', 'mul']))
+    fine_cls = draw(st.sampled_from(['IndexSecond', 'Index[s]', 'IndexNanosecond']))
+    order = draw(st.sampled_from(['ab', 'ba']))
+    days = draw(st.lists(st.integers(0, 9), min_size=1, max_size=5, unique=True))
+    sub = draw(st.lists(st.sampled_from(days), min_size=1, max_size=len(days), unique=True))
+    va = draw(st.lists(st.integers(1, 9), min_size=len(days), max_size=len(days)))
+    vb = draw(st.lists(st.integers(1, 9), min_size=len(sub), max_size=len(sub)))
+    return {'op': op, 'fine_cls': fine_cls, 'order': order, 'days': days, 'sub': sub, 'va': va, 'vb': vb}
+
+
+def check_units(case):
+    fn = OPS[case['op']]
+    d0 = np.datetime64('2020-01-01', 'D')
+    la = [d0 + np.timedelta64(k, 'D') for k in case['days']]
+    lb = [d0 + np.timedelta64(k, 'D') for k in case['sub']]
+    a = sf.Series(case['va'], index=sf.IndexDate(la))
+    fine = np.array(lb, dtype='M8[D]').astype('M8[ns]' if case['fine_cls'] == 'IndexNanosecond' else 'M8[s]')
+    ixb = {'IndexSecond': lambda: sf.IndexSecond(fine), 'Index[s]': lambda: sf.Index(fine), 'IndexNanosecond': lambda: sf.IndexNanosecond(fine)}[case['fine_cls']]()
+    b = sf.Series(case['vb'], index=ixb)
+    x, y = (a, b) if case['order'] == 'ab' else (b, a)
+    what = 'Series labelled by IndexDate %s %s Series labelled by %s (operands in order %s)' % (short([str(l) for l in la]), case['op'], case['fine_cls'], case['order'])
+    r = lib(lambda: fn(x, y))
+    if isinstance(r, Raised):
+        if r.cls.startswith('ErrorInit'):
+            raise Discard('the union of the two label sets is refused: %s' % r.cls)
+        raise Failure('raised:%s' % r.cls, '%s raised %r' % (what, r.exc), r.where)
+    ma = {int(k): v for k, v in zip(case['days'], case['va'])}
+    mb = {int(k): v for k, v in zip(case['sub'], case['vb'])}
+    got = {}
+    for lab, v in zip(r.index.values.tolist() if r.index.values.dtype.kind != 'M' else list(r.index.values), arr_list(r.values)):
+        day = int((np.datetime64(lab).astype('M8[D]') - d0) / np.timedelta64(1, 'D'))
+        if day in got:
+            raise Failure('labels', '%s: the instant of day %d appears twice in the result' % (what, day))
+        got[day] = v
+    if set(got) != set(ma) | set(mb):
+        raise Failure('labels', '%s: result days %s expected %s' % (what, sorted(got), sorted(set(ma) | set(mb))))
+    for day, v in got.items():
+        if day in ma and day in mb:
+            w = fn(ma[day], mb[day]) if case['order'] == 'ab' else fn(mb[day], ma[day])
+            if not eq(v, w):
+                raise Failure('value', '%s: day %d holds %r, the operands hold %r and %r there' % (what, day, v, ma[day], mb[day]))
+        elif not is_missing(v):
+            raise Failure('value', '%s: day %d is held by one operand only and holds %r' % (what, day, v))
+    return {'nt': len(case['days']) >= 2, 'cls': ['units:' + case['fine_cls'], 'units-order:' + case['order']]}
+
+
 SUBS = [
     Sub('setops', setop_cases(), check_setop, quick=8000, thorough=48000, tag=tag,
         rule='set algebra of indices'),
@@ -624,4 +675,6 @@ SUBS = [
         rule='hierarchies built by from_product vs a same-shaped hierarchy differing in one inner label: set algebra, equals, Series / Frame operators pair by label'),
     Sub('scalar_forms', scalar_cases(), check_scalar, quick=2400, thorough=16000, tag=tag,
         rule='a scalar or unlabelled list on either side (forward and reflected + - * / // % ** == < >=) of a Series / SeriesHE / Frame / FrameGO / Index: labels kept, every cell is the operator applied to the value in that order'),
+    Sub('datetime_units', unit_cases(), check_units, quick=1600, thorough=8000, tag=tag,
+        rule='Series labelled by IndexDate against a Series labelled by the same instants at second / nanosecond resolution, labels in generated orders, both operand orders: values pair by instant'),
 ]
